@@ -766,12 +766,9 @@ impl XmlAttribute {
         self.element()
             .as_ref()?
             .borrow()
-            .declaration_att_list()?
-            .borrow()
-            .atts
-            .iter()
+            .declaration_att_defs()
+            .into_iter()
             .find(|v| equal_qname(v.qname(), self.qname()))
-            .cloned()
     }
 
     fn declaration_type(&self) -> Option<XmlDeclarationAttType> {
@@ -2165,15 +2162,13 @@ impl Element for XmlElement {
     fn attributes(&self) -> UnorderedSet<XmlNode<XmlAttribute>> {
         let mut items = self.attributes_specified();
 
-        if let Some(attrs) = self.declaration_att_list() {
-            for attr in attrs.borrow().atts.as_slice() {
-                if attr.value != XmlDeclarationAttDefault::Implied
-                    && !items
-                        .iter()
-                        .any(|v| equal_qname(v.borrow().qname(), attr.qname()))
-                {
-                    items.push(XmlAttribute::new_from_declaration(attr, self.context()));
-                }
+        for attr in self.declaration_att_defs().as_slice() {
+            if attr.value != XmlDeclarationAttDefault::Implied
+                && !items
+                    .iter()
+                    .any(|v| equal_qname(v.borrow().qname(), attr.qname()))
+            {
+                items.push(XmlAttribute::new_from_declaration(attr, self.context()));
             }
         }
 
@@ -2406,26 +2401,20 @@ impl XmlElement {
     }
 
     fn attributes_id(&self) -> Vec<XmlNode<XmlAttribute>> {
-        if let Some(attlist) = self.declaration_att_list() {
-            let ids = attlist
-                .borrow()
-                .atts
-                .iter()
-                .filter(|v| v.ty == XmlDeclarationAttType::Id)
-                .cloned()
-                .collect::<Vec<XmlDeclarationAttDef>>();
-            self.attributes
-                .iter()
-                .filter_map(|v| v.as_attribute())
-                .filter(|v| !v.borrow().namespace())
-                .filter(|v| {
-                    ids.iter()
-                        .any(|i| equal_qname(v.borrow().qname(), i.qname()))
-                })
-                .collect()
-        } else {
-            vec![]
-        }
+        let ids = self
+            .declaration_att_defs()
+            .into_iter()
+            .filter(|v| v.ty == XmlDeclarationAttType::Id)
+            .collect::<Vec<XmlDeclarationAttDef>>();
+        self.attributes
+            .iter()
+            .filter_map(|v| v.as_attribute())
+            .filter(|v| !v.borrow().namespace())
+            .filter(|v| {
+                ids.iter()
+                    .any(|i| equal_qname(v.borrow().qname(), i.qname()))
+            })
+            .collect()
     }
 
     fn attributes_specified(&self) -> Vec<XmlNode<XmlAttribute>> {
@@ -2436,16 +2425,26 @@ impl XmlElement {
             .collect()
     }
 
-    fn declaration_att_list(&self) -> Option<XmlNode<XmlDeclarationAttList>> {
-        self.context
-            .document()
-            .borrow()
-            .document_declaration()?
-            .borrow()
-            .attributes()
-            .iter()
-            .find(|v| equal_qname(v.borrow().qname(), self.qname()))
-            .cloned()
+    /// Attribute definitions of this element type. Every attribute-list declaration for the
+    /// element type contributes, in document order, and the first definition of an attribute
+    /// name is binding (XML 1.0 3.3).
+    fn declaration_att_defs(&self) -> Vec<XmlDeclarationAttDef> {
+        let mut defs: Vec<XmlDeclarationAttDef> = vec![];
+
+        if let Some(declaration) = self.context.document().borrow().document_declaration() {
+            for list in declaration.borrow().attributes() {
+                let list = list.borrow();
+                if equal_qname(list.qname(), self.qname()) {
+                    for def in list.atts.as_slice() {
+                        if !defs.iter().any(|d| equal_qname(d.qname(), def.qname())) {
+                            defs.push(def.clone());
+                        }
+                    }
+                }
+            }
+        }
+
+        defs
     }
 
     fn find_nameapce_uri(&self, prefix: &str) -> error::Result<Option<NamespaceUri>> {
